@@ -1032,7 +1032,18 @@ func runWallets(o *Out, r *Rng, n int, thorough bool, hist Hist, caseJSON map[st
 				}
 				keys = append(keys, sk)
 			}
+			// the same key may be given more than once (only AddEntry rejects duplicates):
+			// entries with the same address share one slot of the secrets container
+			if len(keys) > 0 && r.Chance(45) {
+				keys = append(keys, keys[r.Intn(len(keys))])
+				if r.Bool() {
+					keys = append(keys, keys[0])
+				}
+			}
 			cur, err = collection.NewWallet("c18.wlt", "c18", append(opts, wallet.OptionCollectionPrivateKeys(keys))...)
+			if err == nil && len(keys) > 0 && r.Chance(35) { // a key the wallet already holds, added later
+				_, err = cur.GenerateAddresses(wallet.OptionCollectionPrivateKeys([]cipher.SecKey{keys[r.Intn(len(keys))]}))
+			}
 		}
 		if err != nil {
 			return fmt.Errorf("wallet construction failed: %v", err)
@@ -1314,11 +1325,16 @@ func runService(o *Out, r *Rng, n int, hist Hist, caseJSON map[string][]map[stri
 		wrong := []byte("no-" + asciiWord(r, 8))
 		opt := wallet.Options{Type: typ, Label: "c18svc", Encrypt: true, Password: pw, CryptoType: ct}
 		known := map[string]bool{} // secrets the harness itself supplied
+		var held []cipher.SecKey // keys given to the collection wallet so far
 		newKeys := func(k int) []cipher.SecKey {
 			var ks []cipher.SecKey
 			for ; k > 0; k-- {
 				_, sk, _ := cipher.GenerateDeterministicKeyPair(r.Bytes(32))
+				if len(held) > 0 && r.Chance(35) {
+					sk = held[r.Intn(len(held))] // a key the wallet already holds
+				}
 				ks = append(ks, sk)
+				held = append(held, sk)
 				known[sk.Hex()] = true
 			}
 			return ks
